@@ -582,11 +582,19 @@ class GameCoordinator:
                 "status": str(GameStatus.FORBIDDEN),
             }
         else:
+            try:
+                # wait for the new state from the world
+                new_state = await self.step(agent_id=agent_addr, agent_state=self._agent_states[agent_addr], action=action)
+            except asyncio.CancelledError:
+                raise
+            except Exception as e:
+                # the world can't process the action (e.g., invalid network address) - nothing is changed
+                self.logger.error(f"Error when processing {action} of {agent_addr}: {e}")
+                await self._send_bad_request(agent_addr, f"Action can't be processed: {e}")
+                return
             async with self._agents_lock:
                 self._agent_last_action[agent_addr] = action
                 self._agent_steps[agent_addr] += 1
-            # wait for the new state from the world
-            new_state = await self.step(agent_id=agent_addr, agent_state=self._agent_states[agent_addr], action=action)
             
             # update agent's values
             async with self._agents_lock:
